@@ -66,3 +66,33 @@ impl LuaIndex for LuaSignatureIndex {
         self.in_file_signatures.clear();
     }
 }
+
+#[cfg(feature = "verif-hooks")]
+impl LuaSignatureIndex {
+    pub(crate) fn verif_sizes(&self) -> Vec<(&'static str, usize)> {
+        vec![
+            ("signatures", self.signatures.len()),
+            ("in_file_signatures", self.in_file_signatures.len()),
+            (
+                "in_file_signatures.ids",
+                self.in_file_signatures.values().map(|v| v.len()).sum(),
+            ),
+        ]
+    }
+
+    pub(crate) fn verif_file_refs(&self, file_id: FileId) -> Vec<(&'static str, usize)> {
+        vec![
+            (
+                "signatures",
+                self.signatures
+                    .keys()
+                    .filter(|id| id.get_file_id() == file_id)
+                    .count(),
+            ),
+            (
+                "in_file_signatures",
+                self.in_file_signatures.contains_key(&file_id) as usize,
+            ),
+        ]
+    }
+}
